@@ -273,6 +273,41 @@ func (r *replayer) build(t types.Type, ts []T, qual types.Qualifier) (rpVal, boo
 		return rpVal{expr: name, decls: decls}, true
 	case *types.Interface:
 		return rpVal{expr: fmt.Sprintf("%s(nil)", tn)}, true
+	case *types.Struct:
+		// a struct passed by value: fields of supported kinds are set, the others stay zero
+		r.nvar++
+		name := fmt.Sprintf("rv%d", r.nvar)
+		decls := []string{fmt.Sprintf("var %s %s", name, tn)}
+		idx := 0
+		all := true
+		for i := 0; i < x.NumFields(); i++ {
+			f := x.Field(i)
+			n := len(comps(f.Type()))
+			fts := ts[idx : idx+n]
+			idx += n
+			switch under(f.Type()).(type) {
+			case *types.Basic:
+			case *types.Slice:
+				if _, ok := under(under(f.Type()).(*types.Slice).Elem()).(*types.Basic); !ok {
+					continue
+				}
+			default:
+				continue
+			}
+			fv, ok := r.build(f.Type(), fts, qual)
+			if !ok {
+				all = false
+				continue
+			}
+			decls = append(decls, fv.decls...)
+			decls = append(decls, fmt.Sprintf("%s.%s = %s", name, f.Name(), fv.expr))
+		}
+		if !all {
+			return rpVal{}, false
+		}
+		return rpVal{expr: name, decls: decls}, true
+	case *types.Signature, *types.Map, *types.Chan:
+		return rpVal{expr: fmt.Sprintf("(%s)(nil)", tn)}, true
 	}
 	panic("parameter type not supported by the replayer: " + tn)
 }
